@@ -38,17 +38,23 @@ type adefer struct {
 }
 
 type astate struct {
-	held   []alock
-	frames [][]adefer
-	known  map[string]bool
-	prov   map[string]string
-	ended  bool
-	brk    bool
-	cont   bool
+	held    []alock
+	frames  [][]adefer
+	known   map[string]bool
+	kowner  map[string]string // for a flag that is a field of a tracked object: the owner's type
+	prov    map[string]string
+	ended   bool
+	brk     bool
+	cont    bool
+	lastRet string // "nil" / "nonnil": what the last inlined callee returned as its error, if known
 }
 
 func (s astate) clone() astate {
-	q := astate{ended: s.ended, brk: s.brk, cont: s.cont, known: map[string]bool{}, prov: map[string]string{}}
+	q := astate{ended: s.ended, brk: s.brk, cont: s.cont, known: map[string]bool{}, prov: map[string]string{},
+		kowner: map[string]string{}, lastRet: s.lastRet}
+	for k, v := range s.kowner {
+		q.kowner[k] = v
+	}
 	q.held = append([]alock(nil), s.held...)
 	for _, f := range s.frames {
 		q.frames = append(q.frames, append([]adefer(nil), f...))
@@ -74,7 +80,7 @@ func (s astate) key() string {
 		}
 		sb.WriteString(";")
 	}
-	fmt.Fprintf(&sb, "|%v%v%v|", s.ended, s.brk, s.cont)
+	fmt.Fprintf(&sb, "|%v%v%v%s|", s.ended, s.brk, s.cont, s.lastRet)
 	var ks []string
 	for k, v := range s.known {
 		ks = append(ks, fmt.Sprintf("%s=%v", k, v))
@@ -123,6 +129,7 @@ type accWalker struct {
 	goLits    []goEntry
 	seenGo    map[*ast.FuncLit]bool
 	truncated bool
+	maxStates int
 	notes     []string
 	entry     string
 	fset      *token.FileSet
@@ -203,9 +210,15 @@ func dedupeStates(w *accWalker, ss []astate) []astate {
 			out = append(out, s)
 		}
 	}
-	if len(out) > 512 {
+	if len(out) > w.maxStates {
+		w.maxStates = len(out)
+	}
+	if len(out) > 2048 {
+		if !w.truncated {
+			w.notes = append(w.notes, fmt.Sprintf("more than 2048 path states in %s: the table is incomplete", w.entry))
+		}
 		w.truncated = true
-		out = out[:512]
+		out = out[:2048]
 	}
 	return out
 }
@@ -615,6 +628,15 @@ func (w *accWalker) lockOp(c *fctx, call *ast.CallExpr) (name string, owner ast.
 func acquire(s *astate, name string, excl bool) { s.held = append(s.held, alock{name, excl}) }
 
 func release(s *astate, name string) bool {
+	// what was learnt about fields of the object the lock protects holds no longer
+	if i := strings.Index(name, "."); i > 0 {
+		for k, o := range s.kowner {
+			if o == name[:i] {
+				delete(s.known, k)
+				delete(s.kowner, k)
+			}
+		}
+	}
 	for i := len(s.held) - 1; i >= 0; i-- {
 		if s.held[i].name == name {
 			s.held = append(s.held[:i:i], s.held[i+1:]...)
@@ -851,6 +873,7 @@ func (w *accWalker) funcBody(c *fctx, body *ast.BlockStmt, ss []astate) []astate
 	var out []astate
 	for _, s := range ss {
 		if !s.ended {
+			s.lastRet = ""
 			out = append(out, w.runDefers(c, s)...)
 		} else {
 			out = append(out, s)
@@ -965,8 +988,37 @@ func (w *accWalker) knownName(c *fctx, e ast.Expr) (string, bool) {
 		if n := selChain(x); n != "?" {
 			return n, neg
 		}
+	case *ast.BinaryExpr:
+		// err != nil / err == nil
+		if x.Op == token.NEQ || x.Op == token.EQL {
+			id, ok1 := x.X.(*ast.Ident)
+			nl, ok2 := x.Y.(*ast.Ident)
+			if ok1 && ok2 && nl.Name == "nil" {
+				if x.Op == token.EQL {
+					neg = !neg
+				}
+				return c.lkey(id.Name) + "!=nil", neg
+			}
+		}
 	}
 	return "", false
+}
+
+// flagOwner: for a condition that is a field of a tracked object (possibly negated), the object's type
+func (w *accWalker) flagOwner(c *fctx, e ast.Expr) string {
+	for {
+		switch x := e.(type) {
+		case *ast.UnaryExpr:
+			e = x.X
+			continue
+		case *ast.ParenExpr:
+			e = x.X
+			continue
+		case *ast.SelectorExpr:
+			return trackedName(c.pkg.TypesInfo.TypeOf(x.X))
+		}
+		return ""
+	}
 }
 
 func (w *accWalker) assignEffects(c *fctx, lhs, rhs ast.Expr, ss []astate) {
@@ -977,12 +1029,25 @@ func (w *accWalker) assignEffects(c *fctx, lhs, rhs ast.Expr, ss []astate) {
 			continue
 		}
 		if id, ok := rhs.(*ast.Ident); ok && (id.Name == "true" || id.Name == "false") {
+			tested, wasFalse := false, false
 			if n, _ := w.knownName(c, lhs); n != "" {
+				if v, ok := s.known[n]; ok {
+					tested, wasFalse = true, !v
+				}
 				s.known[n] = id.Name == "true"
+				if sel, ok := lhs.(*ast.SelectorExpr); ok {
+					if o := trackedName(c.pkg.TypesInfo.TypeOf(sel.X)); o != "" {
+						s.kowner[n] = o
+					}
+				}
 			}
 			if sel, ok := lhs.(*ast.SelectorExpr); ok {
 				owner := trackedName(c.pkg.TypesInfo.TypeOf(sel.X))
 				fld := owner + "." + sel.Sel.Name
+				if tokenFields[fld] && id.Name == "true" && w.prov(c, s, sel.X) != "local" && !(tested && wasFalse) {
+					// the flag is a lock only if it is tested and set in one critical section
+					w.notes = append(w.notes, fmt.Sprintf("%s: %s is set without having been found clear in the same critical section (%s)", w.pos(lhs.Pos()), fld, w.entry))
+				}
 				if tokenFields[fld] && w.prov(c, s, sel.X) != "local" {
 					dbExcl := false
 					for _, l := range s.held {
@@ -1029,6 +1094,37 @@ func (w *accWalker) stmt(c *fctx, st ast.Stmt, all []astate) []astate {
 	case *ast.ReturnStmt:
 		for _, r := range x.Results {
 			run = w.expr(c, r, run, false)
+		}
+		for i := range run {
+			run[i].lastRet = ""
+			if len(x.Results) == 0 {
+				continue
+			}
+			switch last := x.Results[len(x.Results)-1].(type) {
+			case *ast.Ident:
+				switch {
+				case last.Name == "nil":
+					run[i].lastRet = "nil"
+				case strings.HasPrefix(last.Name, "Err"):
+					run[i].lastRet = "nonnil"
+				default:
+					if v, ok := run[i].known[c.lkey(last.Name)+"!=nil"]; ok {
+						if v {
+							run[i].lastRet = "nonnil"
+						} else {
+							run[i].lastRet = "nil"
+						}
+					}
+				}
+			case *ast.SelectorExpr:
+				if strings.HasPrefix(last.Sel.Name, "Err") {
+					run[i].lastRet = "nonnil"
+				}
+			case *ast.CallExpr:
+				if sel, ok := last.Fun.(*ast.SelectorExpr); ok && (sel.Sel.Name == "Errorf" || sel.Sel.Name == "New") {
+					run[i].lastRet = "nonnil"
+				}
+			}
 		}
 		for _, s := range run {
 			if s.ended {
@@ -1093,6 +1189,9 @@ func (w *accWalker) stmt(c *fctx, st ast.Stmt, all []astate) []astate {
 				}
 				t, e := s.clone(), s.clone()
 				t.known[name], e.known[name] = !neg, neg
+				if o := w.flagOwner(c, x.Cond); o != "" {
+					t.kowner[name], e.kowner[name] = o, o
+				}
 				thenIn, elseIn = append(thenIn, t), append(elseIn, e)
 				continue
 			}
@@ -1104,9 +1203,37 @@ func (w *accWalker) stmt(c *fctx, st ast.Stmt, all []astate) []astate {
 			elseOut = w.stmt(c, x.Else, elseIn)
 		}
 		out = append(append(thenOut, elseOut...), skip...)
+		if strings.HasSuffix(name, "!=nil") {
+			// the outcome of the call has been consumed by this test
+			for i := range out {
+				delete(out[i].known, name)
+			}
+		}
 	case *ast.AssignStmt:
+		for i := range run {
+			run[i].lastRet = ""
+		}
 		for _, r := range x.Rhs {
 			run = w.expr(c, r, run, false)
+		}
+		if len(x.Rhs) == 1 {
+			if _, isCall := x.Rhs[0].(*ast.CallExpr); isCall {
+				if id, ok := x.Lhs[len(x.Lhs)-1].(*ast.Ident); ok && id.Name != "_" {
+					if t := c.pkg.TypesInfo.TypeOf(id); t != nil && t.String() == "error" {
+						for i := range run {
+							k := c.lkey(id.Name) + "!=nil"
+							switch run[i].lastRet {
+							case "nil":
+								run[i].known[k] = false
+							case "nonnil":
+								run[i].known[k] = true
+							default:
+								delete(run[i].known, k)
+							}
+						}
+					}
+				}
+			}
 		}
 		for _, l := range x.Lhs {
 			if id, ok := l.(*ast.Ident); ok && x.Tok == token.DEFINE {
@@ -1377,7 +1504,9 @@ func GenAccess(repo, outDir string) error {
 		}
 	}
 	sort.Slice(entries, func(i, j int) bool { return entries[i].name < entries[j].name })
-	start := func() astate { return astate{known: map[string]bool{}, prov: map[string]string{}} }
+	start := func() astate {
+		return astate{known: map[string]bool{}, prov: map[string]string{}, kowner: map[string]string{}}
+	}
 	runEntry := func(name string, fd *ast.FuncDecl, init astate) []astate {
 		w.entry = name
 		c := &fctx{pkg: w.declPkg[fd], depth: 0, fname: fd.Name.Name, recvProv: "shared"}
@@ -1499,10 +1628,21 @@ func writeAccess(w *accWalker, outDir string, nEntries int) error {
 			strings.Join(hs, "; "), sep, r.loc, r.where)
 	}
 	sb.WriteString("].\n")
+	// the locations that the atomicity of the index operations (C08) and of the file set rests on
+	named := func(coq, loc string) {
+		id, ok := locID[loc]
+		if !ok {
+			id = 1000000 // not accessed at all
+		}
+		fmt.Fprintf(&sb, "Definition %s : nat := %d.\n", coq, id)
+	}
+	named("loc_shard_index", "Shard.index")
+	named("loc_db_active_file", "DB.activeFile")
+	named("loc_db_older_files", "DB.olderFiles")
 	fmt.Fprintf(&sb, "Definition gen_access_count : nat := %d.\n", len(recs))
 	fmt.Fprintf(&sb, "Definition gen_write_count : nat := %d.\n", writes)
 	fmt.Fprintf(&sb, "Definition gen_entry_count : nat := %d.\n", nEntries)
-	fmt.Fprintf(&sb, "Definition gen_truncated : bool := %v.\n", w.truncated)
+	fmt.Fprintf(&sb, "Definition gen_truncated : bool := %v. (* at most %d path states at a statement; the limit is 2048 *)\n", w.truncated, w.maxStates)
 	fmt.Fprintf(&sb, "Definition gen_note_count : nat := %d.\n", len(w.notes))
 	for _, n := range w.notes {
 		fmt.Fprintf(&sb, "(* note: %s *)\n", strings.ReplaceAll(n, "*)", "* )"))
